@@ -34,7 +34,8 @@ CONSTANTS Chains,      \* e.g. {"A","B"}
           Signers,     \* subset of {"relayer","outsider"}
           Funds,       \* initial origin-token balance of each chain's user
           Fees,        \* relayer fee amounts (paid in the origin token)
-          SendFrom     \* set of <<chain, kind>> allowed to send (bounds the model; all pairs = unrestricted)
+          SendFrom,    \* set of <<chain, kind>> allowed to send (bounds the model; all pairs = unrestricted)
+          WithRotate   \* whether relayer re-registrations (Rotate) are part of the model (multiplies the state space)
 
 VARIABLES
   h,        \* h[c]        abstract height: number of commits of c
@@ -53,11 +54,13 @@ VARIABLES
   clients,  \* clients[c][d] = [latest, cons]
   marks,    \* marks[c]    how many times an "ok" call ran on c
   snaps,    \* snaps[c]    sequence: provable [commits, acks] per abstract height (index k+1)
+  rot,      \* rot[c][d]  governance on c re-registered the relayer for chain d with another counterparty address
+  badrel,   \* badrel[c]  triples whose acknowledgement, written by c, names that other address as relayer
   sent,     \* every packet ever emitted (ghost; the relayer's knowledge)
   last      \* observation of the last step
 
-vars == <<h, seq, cseq, commits, receipts, acks, out, bind, ubal, wbal, rbal, held, status, clients, marks, snaps, sent, last>>
-stateVars == <<h, seq, cseq, commits, receipts, acks, out, bind, ubal, wbal, rbal, held, status, clients, marks, snaps, sent>>
+vars == <<h, seq, cseq, commits, receipts, acks, out, bind, ubal, wbal, rbal, held, status, clients, marks, snaps, rot, badrel, sent, last>>
+stateVars == <<h, seq, cseq, commits, receipts, acks, out, bind, ubal, wbal, rbal, held, status, clients, marks, snaps, rot, badrel, sent>>
 
 (* values for SendFrom (configuration files cannot write tuples) *)
 AllSendFrom == Chains \X {"fwd", "back"}
@@ -94,6 +97,7 @@ Init ==
   /\ clients = [c \in Chains |-> [d \in Others(c) |-> [latest |-> 0, cons |-> {0}]]]
   /\ marks = [c \in Chains |-> 0]
   /\ snaps = [c \in Chains |-> << [commits |-> {}, acks |-> {}] >>]
+  /\ rot = [c \in Chains |-> [d \in Others(c) |-> FALSE]] /\ badrel = [c \in Chains |-> {}]
   /\ sent = {}
   /\ last = [act |-> "Init", res |-> "ok"]
 
@@ -127,7 +131,7 @@ SendEffCb(c, d, k, a, cl, f, cb) ==
             /\ UNCHANGED out
        ELSE /\ ubal' = [ubal EXCEPT ![c] = @ - f]          \* "none": a call-only packet, no tokens
             /\ UNCHANGED <<out, wbal, bind>>
-  /\ UNCHANGED <<h, receipts, acks, rbal, clients, marks, snaps>>
+  /\ UNCHANGED <<h, receipts, acks, rbal, clients, marks, snaps, rot, badrel>>
 
 SendEff(c, d, k, a, cl, f) == SendEffCb(c, d, k, a, cl, f, "none")
 
@@ -159,13 +163,13 @@ SendTwoEff(c, d1, d2, cl) ==
        /\ commits' = [commits EXCEPT ![c] = @ \cup {p1, p2}]
        /\ status' = [status EXCEPT ![c] = (T(p1) :> 0) @@ (T(p2) :> 0) @@ @]
        /\ sent' = sent \cup {p1, p2}
-       /\ UNCHANGED <<h, receipts, acks, out, bind, ubal, wbal, rbal, held, clients, marks, snaps>>
+       /\ UNCHANGED <<h, receipts, acks, out, bind, ubal, wbal, rbal, held, clients, marks, snaps, rot, badrel>>
 SendTwo(c, d1, d2, cl) == SendTwoEff(c, d1, d2, cl) /\ last' = [act |-> "SendTwo", res |-> Res(SendTwoOK(c, d1, d2)), chain |-> c, dst |-> d1, dst2 |-> d2, call |-> cl]
 
 CommitEff(c) ==
   /\ h' = [h EXCEPT ![c] = @ + 1]
   /\ snaps' = [snaps EXCEPT ![c] = Append(@, [commits |-> commits[c], acks |-> acks[c]])]
-  /\ UNCHANGED <<seq, cseq, commits, receipts, acks, out, bind, ubal, wbal, rbal, held, status, clients, marks, sent>>
+  /\ UNCHANGED <<seq, cseq, commits, receipts, acks, out, bind, ubal, wbal, rbal, held, status, clients, marks, sent, rot, badrel>>
 
 Commit(c) ==
   /\ h[c] < MaxH
@@ -184,7 +188,7 @@ UpdateEff(c, d, k, s) ==
   LET cl == clients[c][d] IN
   IF ~UpdateOK(c, d, k, s) THEN UNCHANGED stateVars
   ELSE /\ clients' = [clients EXCEPT ![c][d] = [latest |-> Max({cl.latest, k}), cons |-> cl.cons \cup {k}]]
-       /\ UNCHANGED <<h, seq, cseq, commits, receipts, acks, out, bind, ubal, wbal, rbal, held, status, marks, snaps, sent>>
+       /\ UNCHANGED <<h, seq, cseq, commits, receipts, acks, out, bind, ubal, wbal, rbal, held, status, marks, snaps, sent, rot, badrel>>
 
 UpdateClient(c, d, k, s) ==
   /\ UpdateEff(c, d, k, s)
@@ -195,8 +199,16 @@ UpdateClient(c, d, k, s) ==
 (* nothing but the client changes - in particular no receipt, acknowledgement, commitment or sequence.          *)
 RetoggleEff(c, d) ==
   /\ clients' = [clients EXCEPT ![c][d] = [latest |-> h[d], cons |-> {h[d]}]]
-  /\ UNCHANGED <<h, seq, cseq, commits, receipts, acks, out, bind, ubal, wbal, rbal, held, status, marks, snaps, sent>>
+  /\ UNCHANGED <<h, seq, cseq, commits, receipts, acks, out, bind, ubal, wbal, rbal, held, status, marks, snaps, sent, rot, badrel>>
 Retoggle(c, d) == RetoggleEff(c, d) /\ last' = [act |-> "Retoggle", res |-> "ok", chain |-> c, counter |-> d]
+
+(* Governance on chain c re-registers the relayer for chain d with another counterparty address (or back).  From    *)
+(* then on the acknowledgements c writes for packets from d name that address, and acknowledgements written by d     *)
+(* that name the previous one are no longer payable on c.                                                            *)
+RotateEff(c, d) ==
+  /\ rot' = [rot EXCEPT ![c][d] = ~@]
+  /\ UNCHANGED <<h, seq, cseq, commits, receipts, acks, out, bind, ubal, wbal, rbal, held, status, clients, marks, snaps, badrel, sent>>
+Rotate(c, d) == RotateEff(c, d) /\ last' = [act |-> "Rotate", res |-> "ok", chain |-> c, counter |-> d]
 
 (* the packet a relayer message names after alteration alt of sent packet p *)
 Decoded(p, alt) ==
@@ -243,7 +255,8 @@ RecvEff(c, p, alt, k, pf, s) ==
                /\ UNCHANGED <<wbal, bind>>
         ELSE UNCHANGED <<wbal, bind, ubal, out>>
      /\ marks' = [marks EXCEPT ![c] = @ + (IF okx /\ q.call = "ok" THEN 1 ELSE 0)]
-     /\ UNCHANGED <<h, seq, cseq, commits, rbal, held, status, clients, snaps, sent>>
+     /\ badrel' = [badrel EXCEPT ![c] = IF rot[c][d] THEN @ \cup {T(q)} ELSE @]     \* the ack names the address c's registry holds for chain d
+     /\ UNCHANGED <<h, seq, cseq, commits, rbal, held, status, clients, snaps, sent, rot>>
 
 Recv(c, p, alt, k, pf, s) ==
   /\ RecvEff(c, p, alt, k, pf, s)
@@ -264,6 +277,9 @@ AckAccept(c, q, a, aalt, k, pf) ==
   (* packet without transfer data, so such an acknowledgement is never accepted and the commitment stays (DESIGN 9.7) *)
   /\ (q.kind = "none" => a = 0)
   /\ q.cb # "bad"
+  (* the relayer the acknowledgement names must be known to this chain's registry for the destination chain: the    *)
+  (* address the destination wrote is the one this chain holds now                                                  *)
+  /\ q.dst \in Others(c) /\ ((T(q) \in badrel[q.dst]) = rot[c][q.dst])
 
 (* base: a sent packet p; a is the acknowledgement code the message carries *)
 AckEff(c, p, a, alt, aalt, k, pf, s) ==
@@ -284,7 +300,7 @@ AckEff(c, p, a, alt, aalt, k, pf, s) ==
                /\ bind' = [bind EXCEPT ![c][d] = @ + q.amt]
                /\ UNCHANGED <<ubal, out>>
         ELSE UNCHANGED <<wbal, bind, ubal, out>>
-     /\ UNCHANGED <<h, seq, cseq, receipts, acks, clients, marks, snaps, sent>>
+     /\ UNCHANGED <<h, seq, cseq, receipts, acks, clients, marks, snaps, sent, rot, badrel>>
 
 Ack(c, p, a, alt, aalt, k, pf, s) ==
   /\ AckEff(c, p, a, alt, aalt, k, pf, s)
@@ -306,6 +322,7 @@ Next ==
   \/ \E c \in Chains : Commit(c)
   \/ \E c \in Chains : \E d \in Others(c), k \in 0..MaxH, s \in Signers : UpdateClient(c, d, k, s)
   \/ \E c \in Chains : \E d \in Others(c) : Retoggle(c, d)
+  \/ \E c \in Chains : \E d \in Others(c) : WithRotate /\ Rotate(c, d)
   \/ \E p \in sent, alt \in Alts, k \in 0..MaxH, pf \in Proofs, s \in Signers : Recv(p.dst, p, alt, k, pf, s)
   \/ \E p \in sent, alt \in Alts, aalt \in AckAlts, k \in 0..MaxH, pf \in Proofs, s \in Signers :
         Ack(p.src, p, AckCode(WrittenCode(p), aalt), alt, aalt, k, pf, s)
